@@ -12,6 +12,40 @@ mod sched;
 
 use common::Tier;
 
+/// Allocator wrapper: fills every fresh allocation with a byte chosen per run (0 = leave alone).
+/// A received byte that the transport never wrote cannot equal the expected byte under two
+/// different fills (C18).
+pub struct FillAlloc;
+pub static FILL: std::sync::atomic::AtomicU8 = std::sync::atomic::AtomicU8::new(0);
+
+unsafe impl std::alloc::GlobalAlloc for FillAlloc {
+    unsafe fn alloc(&self, l: std::alloc::Layout) -> *mut u8 {
+        let p = std::alloc::System.alloc(l);
+        let f = FILL.load(std::sync::atomic::Ordering::Relaxed);
+        if f != 0 && !p.is_null() {
+            std::ptr::write_bytes(p, f, l.size());
+        }
+        p
+    }
+    unsafe fn dealloc(&self, p: *mut u8, l: std::alloc::Layout) {
+        std::alloc::System.dealloc(p, l)
+    }
+    unsafe fn alloc_zeroed(&self, l: std::alloc::Layout) -> *mut u8 {
+        std::alloc::System.alloc_zeroed(l)
+    }
+    unsafe fn realloc(&self, p: *mut u8, l: std::alloc::Layout, n: usize) -> *mut u8 {
+        let q = std::alloc::System.realloc(p, l, n);
+        let f = FILL.load(std::sync::atomic::Ordering::Relaxed);
+        if f != 0 && !q.is_null() && n > l.size() {
+            std::ptr::write_bytes(q.add(l.size()), f, n - l.size());
+        }
+        q
+    }
+}
+
+#[global_allocator]
+static GLOBAL: FillAlloc = FillAlloc;
+
 fn usage() -> ! {
     eprintln!("usage: vcheck <C01..C20> [--tier quick|thorough] | vcheck selftest | vcheck replay <file> | vcheck --list-fds");
     std::process::exit(2)
